@@ -10,6 +10,8 @@ search (oracle): on the real expressions, `parse_string(s, parse_all=True)` acce
                  documented syntax (python transcription of the Lean `Is…` predicates) and the converted values agree
                  with int()/float()/ipaddress/uuid/datetime/str.isidentifier.  The agreement with CPython library
                  code is search-only (no model) and labelled so in the evidence.
+QuotedString:    model PPModel/Mod/Quoted.lean, theorems PPProofs/Props/C18Quoted.lean, facts / correspondence / oracle in
+                 harness/props/c18_quoted.py (see its docstring).
 """
 from __future__ import annotations
 
